@@ -18,6 +18,10 @@ Theorem C08_id_distance : forall c0 n ls s l1 x l2 l3, in_i32 c0 -> ReqId.run ma
   rev (hist s) = l1 ++ x :: l2 ++ x :: l3 -> 2147483648 - 2 <= Z.of_nat (length l2) + 1.
 Proof. exact (ReqIdProofs.id_distance maxi eq_refl). Qed.
 
+(* the bound is tight: from counter 1, the Add that follows 2^31-2 Adds and the Cas of the next call returns 2 again *)
+Theorem C08_id_distance_tight : exists l2, adds 2147483647 1 tight_ops = 2 :: l2 ++ [2] /\ Z.of_nat (length l2) + 1 = 2147483648 - 2.
+Proof. exact ReqIdProofs.id_distance_tight. Qed.
+
 (* hence any stretch of fewer than 2^31-2 consecutive allocations is pairwise distinct: two calls can share an id only if
    2^31-2 or more allocations happen while the first is still outstanding (the per-proxy in-flight limit is 10^5) *)
 Theorem C08_id_window_distinct : forall c0 n ls s pre w post, in_i32 c0 -> ReqId.run maxi (ReqId.init c0 n) ls = Some s ->
@@ -107,6 +111,18 @@ Theorem C08_sys_outstanding_distinct : forall c0, in_i32 c0 -> forall nt na ls s
   active c1 = true -> active c2 = true -> c_id c1 = c_id c2 -> a1 = a2 /\ k1 = k2.
 Proof. exact (C08SysProofs.sys_outstanding_distinct maxi eq_refl). Qed.
 
+(* the clause as literally worded ("no two concurrently outstanding calls of a process share an id", no proviso) *)
+Definition C08_outstanding_never_share_statement : Prop :=
+  forall c0 nt na ls s a1 k1 c1 p1 a2 k2 c2 p2, in_i32 c0 -> srun 2147483647 (sinit c0 nt na) ls = Some s ->
+    call_at s a1 k1 c1 p1 -> call_at s a2 k2 c2 p2 -> active c1 = true -> active c2 = true -> c_id c1 = c_id c2 ->
+    a1 = a2 /\ k1 = k2.
+
+(* ... is false of the model and of the code (32-bit counter): a call that stays outstanding while 2^31-2 further ids are
+   allocated meets a second call with its id (witness: C08SysProofs.wrap_labels, 2^31 labels, proved symbolically;
+   replayed on the code by the thorough tier's "wrap" scenario) *)
+Theorem C08_outstanding_never_share_refuted : ~ C08_outstanding_never_share_statement.
+Proof. exact C08SysProofs.unconditional_distinct_refuted. Qed.
+
 (* the reply a call holds carries the call's own id, and no other outstanding call of the process, on this or any other
    connection, has that id: never a response addressed to another call *)
 Theorem C08_sys_no_foreign_reply : forall c0, in_i32 c0 -> forall nt na ls s, srun maxi (sinit c0 nt na) ls = Some s ->
@@ -128,6 +144,7 @@ Proof. exact C08SysProofs.young_if_few. Qed.
 
 Print Assumptions C08_id_nonzero.
 Print Assumptions C08_id_distance.
+Print Assumptions C08_id_distance_tight.
 Print Assumptions C08_id_window_distinct.
 Print Assumptions C08_routing.
 Print Assumptions C08_unknown_reaches_nobody.
@@ -142,6 +159,7 @@ Print Assumptions C08_sys_adapter_is_run.
 Print Assumptions C08_sys_ids_nonzero.
 Print Assumptions C08_sys_shared_id_far.
 Print Assumptions C08_sys_outstanding_distinct.
+Print Assumptions C08_outstanding_never_share_refuted.
 Print Assumptions C08_sys_no_foreign_reply.
 Print Assumptions C08_sys_registration_good.
 Print Assumptions C08_sys_young_if_few.
